@@ -188,8 +188,13 @@ main(int argc, char *argv[])
 			uint8_t p[32];
 			for (int i = 0; i < k; i++)
 				p[i] = pat(seq, (size_t) i);
-			ovni_ev_set_clock(&ev, op[0] == 'q' ? last_clock : ovni_clock_now());
-			ovni_ev_set_mcv(&ev, mcv);
+			/* the setters may be called in any order: with a trailing 'r' the payload goes in first, then the MCV, then
+			 * the clock */
+			int rev = op[strlen(op) - 1] == 'r';
+			if (!rev) {
+				ovni_ev_set_clock(&ev, op[0] == 'q' ? last_clock : ovni_clock_now());
+				ovni_ev_set_mcv(&ev, mcv);
+			}
 			const char *split = strchr(op, ':');
 			if (k > 0) {
 				if (split) {
@@ -203,6 +208,10 @@ main(int argc, char *argv[])
 				} else {
 					ovni_payload_add(&ev, p, k);
 				}
+			}
+			if (rev) {
+				ovni_ev_set_mcv(&ev, mcv);
+				ovni_ev_set_clock(&ev, op[0] == 'q' ? last_clock : ovni_clock_now());
 			}
 			last_clock = ovni_ev_get_clock(&ev);
 			fprintf(logf, "E %s %" PRIu64 " %d %u\n", mcv, ovni_ev_get_clock(&ev), k, seq);
